@@ -38,6 +38,8 @@ E = dim(energy=1)
 M = dim(money=1)
 T = dim(time=1)
 P = dim(energy=1, time=-1)
+LEN = dim(length=1)
+TEMP = dim(temperature=1)
 NONE: Dim = ()
 UNIT_TABLE: Dict[str, Tuple[Dim, Fraction]] = {
     '': (NONE, Fraction(1)), '%': (NONE, Fraction(1, 100)), 'percent': (NONE, Fraction(1, 100)),
@@ -53,6 +55,11 @@ UNIT_TABLE: Dict[str, Tuple[Dim, Fraction]] = {
     'hr': (T, Fraction(1)), 'hour': (T, Fraction(1)), 'yr': (NONE, Fraction(1)), 'year': (NONE, Fraction(1)),
     'MMBTU': (E, Fraction('293.07107')),
     'J': (E, Fraction(1, 3600000)), 'kJ': (E, Fraction(1, 3600)), '1e15 J': (E, Fraction(10 ** 15, 3600000)),
+    # lengths (base: metre) and temperature gradients (base: K per metre); exact by definition of the inch/foot/mile
+    'meter': (LEN, Fraction(1)), 'centimeter': (LEN, Fraction(1, 100)), 'kilometer': (LEN, Fraction(1000)),
+    'ft': (LEN, Fraction(3048, 10000)), 'in': (LEN, Fraction(254, 10000)), 'mile': (LEN, Fraction(1609344, 1000)),
+    'degC/km': (dim_mul(TEMP, LEN, -1), Fraction(1, 1000)), 'degC/m': (dim_mul(TEMP, LEN, -1), Fraction(1)),
+    'degF/mi': (dim_mul(TEMP, LEN, -1), Fraction(5, 9) / Fraction(1609344, 1000)),
 }
 REL_TOL = Fraction(5, 10000)
 
